@@ -11,6 +11,7 @@ R18.4 (A1)  optional: copy constructor / copy assignment obtain storage only thr
 R18.5       optional's storage member is std::unique_ptr<T>; a defaulted copy with pointer storage would alias.
 """
 import os
+import re
 
 from sa import ir, cfg, witness
 from sa.ir import fmt, walk, short
@@ -41,6 +42,18 @@ def run(ctx):
     if ctx.anchor("R18.6", QP, qc is not None):
         where = "%s:%d" % (qc["file"], qc["line"])
         owning_base = any("unique_ptr" in (b.get("name") or "") for b in qc.get("bases", []))
+        # the deleter travels with the pointer BY VALUE: a reference/pointer deleter is state shared between owners
+        for b in qc.get("bases", []):
+            bn = (b.get("name") or "").replace(" ", "")
+            if "unique_ptr<" in bn:
+                inner = bn[bn.index("unique_ptr<") + len("unique_ptr<"):]
+                shared_del = inner.rstrip(">").endswith("&") or inner.rstrip(">").endswith("*") and "void(void*)" not in inner.rstrip(">")[-12:]
+                byref = re.search(r"std::function<void\(void\*\)>[&*]", bn) is not None or re.search(r",[^,]*[&]>+$", bn) is not None
+                ctx.check(not byref, "R18.6", QP, "deleter-owned-by-value", "quaint_ptr's owner is %s: the deleter is held by reference, i.e. shared by every pointer that refers to the same function object; "
+                          "a move assignment between owners of different types rewrites it and objects are then destroyed by the destructor of another type" % b.get("name"), where, why_ok=b.get("name"))
+        for fl in qc.get("fields", []):
+            if "unique_ptr" in (fl.get("type") or "") and re.search(r"[&]\s*>\s*$", (fl.get("type") or "")):
+                ctx.bad("R18.6", QP, "deleter-owned-by-value", "quaint_ptr's owner member %s holds its deleter by reference" % fl.get("type"), where)
         for op in ("move_ctor", "move_assign", "dtor"):
             sp = qc.get("special", {}).get(op)
             if sp is None or sp.get("deleted"):
@@ -195,8 +208,13 @@ def _optional_rules(ctx, prog, c):
     CN = c["name"]
     data = [fl for fl in c["fields"] if not fl.get("static")]
     if len(data) != 1:
-        ctx.broken("R18.5", CN, "storage-member", "expected a single storage member, found %s" % [fl["name"] for fl in data], "-")
-        return
+        # storage plus bookkeeping (an `engaged` flag next to the pointer): the analysis follows the pointer member, and every
+        # observer of emptiness must then agree (below: operator bool <=> the test that guards operator*)
+        ptrs = [fl for fl in data if "unique_ptr" in (fl.get("type") or "") or "shared_ptr" in (fl.get("type") or "") or fl.get("ptr")]
+        if len(ptrs) != 1:
+            ctx.broken("R18.5", CN, "storage-member", "expected a single storage member, found %s" % [fl["name"] for fl in data], "-")
+            return
+        data = ptrs
     dq = data[0]["qual"]
     dtype = data[0]["type"].replace(" ", "")
     is_unique = dtype.startswith("std::unique_ptr<") or dtype.startswith("unique_ptr<")
@@ -345,6 +363,33 @@ def _optional_rules(ctx, prog, c):
         ctx.check(ok, "R18.4", f, "assignment-always-overwrites:" + what,
                   "%s leaves the target's old value in place on the path B%s: after `a = b` the target does not hold b's state (an empty source does not empty the target)"
                   % (what, "->B".join(str(b) for b in (path or []))), f)
+    # emptiness has ONE meaning: operator bool is true exactly when operator* would return (not raise)
+    obool = [f for f in methods if (f.kind == "conversion" or f.name == "operator bool") and f.is_pattern]
+    if obool and deref and any(f.is_pattern for f in deref):
+        from sa import logic as _lg
+        from .common import callgraph as _cgf
+        lgc = _lg.Logic(prog, _cgf(ctx))
+        fb = lgc.fn_formula(obool[0], {"this": None, "params": {}})
+        for f in [x for x in deref if x.is_pattern]:
+            # the condition under which operator* reaches its `return`
+            guards = []
+            for bid, i, e in f.roots():
+                if e["expr"].get("k") == "return":
+                    g = _lg.T
+                    dom = cfg.dominators(f)
+                    for d0 in dom.get(bid, ()):
+                        cnd = f.term(d0).get("cond")
+                        if cnd is None or d0 == bid:
+                            continue
+                        for to, lab in f.succs(d0):
+                            if not cfg.reachable_without_edge(f, d0, to, bid):
+                                fc = lgc.truthy(cnd, {"this": None, "params": {}}, 0)
+                                g = _lg.And(g, fc if lab == "true" else _lg.Not(fc))
+                    guards.append(g)
+            if fb is not None and len(guards) == 1:
+                ctx.check(_lg.equivalent(fb, guards[0], lgc.axioms), "R18.4", f, "one-notion-of-empty",
+                          "operator bool is `%s` but operator* returns under `%s`: an optional that reports itself empty can still be read (stale value instead of the raise), or the reverse"
+                          % (_lg.show(fb), _lg.show(guards[0])), f, why_ok="%s <=> %s" % (_lg.show(fb), _lg.show(guards[0])))
     for f in deref:
         # every dereference of data_ dominated by a non-null test; other edge raises
         n_deref = 0
